@@ -94,6 +94,8 @@ class Tree:
     def unit_defaults(self):
         rng = self.rng
         line = rng.choice(["1 1", "1 2 yes", "1 1 yes 1.0 1.0", "1 3 no 0.5 0.8333", "1 2 no"])
+        if self.rich and rng.random() < 0.25:
+            line = rng.choice(["1", "1 1 no 1.0 1.0 0.5", "1 2 yes 0.5"])      # 1, 6 and 4 tokens (zip stops at the shorter)
         return ["[ defaults ]", line]
 
     def unit_atomtypes(self):
@@ -472,6 +474,8 @@ def gen_tree(rng, malformed=None, shape=None, opts=None):
             sys_lines += ["[ system ]", "a generated system"]
         sys_lines.append("[ molecules ]")
         sys_lines += ["%s %d" % (name, count) for name, count in molecules]
+        if len(molecules) > 1 and rng.random() < 0.25:
+            sys_lines.insert(len(sys_lines) - rng.randint(1, len(molecules) - 1), "[ molecules ]")   # the header twice
         tree.files[sysfile] = sys_lines
         lines.append(tree.include_line(top, sysfile))
     else:
@@ -480,6 +484,8 @@ def gen_tree(rng, malformed=None, shape=None, opts=None):
         lines.append("[ molecules ]")
         for name, count in molecules:
             lines.append("%s %d" % (name, count))
+        if opts and len(molecules) > 1 and rng.random() < 0.25:
+            lines.insert(len(lines) - rng.randint(1, len(molecules) - 1), "[ molecules ]")           # the header twice
     tree.files[top] = lines
     case = dict(files={p: list(l) for p, l in tree.files.items()}, top=top, molecules=molecules, valid=True,
                 units=tree.units,
@@ -530,6 +536,21 @@ def apply_malformed(rng, case, kind):
         files[top].insert(0, '#include "%s"' % os.path.basename(top))
     elif kind == "bad-number":
         files[top][0:0] = ["[ atomtypes ]", "QQ 12.0 0.0 A abc 0.1"]
+    elif kind == "define-without-tag":
+        files[victim].insert(0, "#define")
+    elif kind == "include-without-path":
+        files[victim].insert(0, "#include")
+    elif kind == "molecules-three-tokens":
+        files[case.get("molfile", top)].append("%s 1 2" % case["molecules"][0][0])
+    elif kind == "molecules-one-token":
+        files[case.get("molfile", top)].append(case["molecules"][0][0])
+    elif kind == "atomtype-too-long":
+        files[top][0:0] = ["[ atomtypes ]", "QQ BQ 6 12.0 0.0 A 0.5 0.1 7"]
+    elif kind == "negative-count":
+        # range(0, -2) is empty: the line is legal and adds nothing
+        files[case.get("molfile", top)].append("%s -2" % case["molecules"][0][0])
+        case["molecules"] = case["molecules"] + [[case["molecules"][0][0], 0]]
+        case["valid"] = True
 
 
 def apply_shape(rng, case, tree, shape):
@@ -693,6 +714,26 @@ def dump_topology(topology, groups):
     )
 
 
+_SCRATCH = []
+
+
+def scratch_base():
+    """where the temporary trees live: a per-process directory on the memory file system if there is one (mkdir / rmdir
+    on the disk dominate the run time of this check otherwise), else the default of `tempfile`"""
+    if not _SCRATCH:
+        base = None
+        if os.path.isdir("/dev/shm") and os.access("/dev/shm", os.W_OK):
+            import atexit
+            base = os.path.join("/dev/shm", "polyply_verif_c08_%d" % os.getpid())
+            try:
+                os.makedirs(base, exist_ok=True)
+                atexit.register(shutil.rmtree, base, True)
+            except OSError:
+                base = None
+        _SCRATCH.append(base)
+    return _SCRATCH[0]
+
+
 def write_tree(root, files):
     for path, lines in files.items():
         full = os.path.join(root, path)
@@ -706,7 +747,7 @@ def make_decoy_library(files, top):
     with DIFFERENT content (DECOY_LINES) under the name of every file of the tree (relative to the root and relative
     to the directory of the top file), under every include path as written and under its base name.  Returns
     (directory to remove afterwards, library directory)."""
-    libroot = os.path.realpath(tempfile.mkdtemp(prefix="c08lib_"))
+    libroot = os.path.realpath(tempfile.mkdtemp(prefix="c08lib_", dir=scratch_base()))
     lib = os.path.join(libroot, "x", "y", "z", "share", "gromacs", "top")
     os.makedirs(lib)
     topdir = os.path.dirname(top)
@@ -744,7 +785,7 @@ def read_real(files, top, chdir=False, keep=False, address=None, env=False, befo
     import polyply.src.top_parser as top_parser
     from polyply.src.topology import Topology
     address = address or ("bare" if chdir else "abs")
-    root = os.path.realpath(tempfile.mkdtemp(prefix="c08_"))
+    root = os.path.realpath(tempfile.mkdtemp(prefix="c08_", dir=scratch_base()))
     groups = []
     original = top_parser.read_itp
 
@@ -887,6 +928,27 @@ def tree_case(case):
     return dict(case=case, dump=dump, err=err, extra=extra, reqs=reqs)
 
 
+def residue_graph_of_type(block):
+    """the residue graph of a molecule type, computed here from its atoms and edges: one node per (resid, resname) with
+    the atoms that carry it; two residues are joined iff an edge of the atom graph joins an atom of each"""
+    member, groups = {}, {}
+    for key in block.nodes:
+        res = (canon_val(block.nodes[key].get("resid")), canon_val(block.nodes[key].get("resname")))
+        member[key] = res
+        groups.setdefault(res, []).append(canon_val(key))
+    nodes = sorted([list(res), sorted(atoms, key=str)] for res, atoms in groups.items())
+    edges = sorted(set(tuple(sorted([member[u], member[v]], key=str)) for u, v in block.edges if member[u] != member[v]), key=str)
+    return nodes, [[list(a), list(b)] for a, b in edges]
+
+
+def residue_graph_of_instance(meta):
+    label = {key: (canon_val(meta.nodes[key].get("resid")), canon_val(meta.nodes[key].get("resname"))) for key in meta.nodes}
+    nodes = sorted([list(label[key]), sorted((canon_val(n) for n in meta.nodes[key]["graph"].nodes), key=str)
+                    if meta.nodes[key].get("graph") is not None else None] for key in meta.nodes)
+    edges = sorted(set(tuple(sorted([label[u], label[v]], key=str)) for u, v in meta.edges), key=str)
+    return nodes, [[list(a), list(b)] for a, b in edges]
+
+
 def instance_checks(topology):
     """every instance equals a fresh copy of its type; mutating one instance leaves the others and the type alone"""
     res = dict(equal=True, independent=True, deep_alias=False, detail="")
@@ -897,6 +959,14 @@ def instance_checks(topology):
         if got != want:
             res["equal"] = False
             res["detail"] = "instance of %s differs from its type: %s vs %s" % (mol.mol_name, got, want)
+            return res
+        # ... and its residue graph is the residue graph of the type
+        want_res = residue_graph_of_type(blocks[mol.mol_name])
+        got_res = residue_graph_of_instance(mol)
+        if got_res != want_res:
+            res["equal"] = False
+            res["detail"] = "the residue graph (nodes, edges) of an instance of %s is %s, that of its type is %s" \
+                % (mol.mol_name, json.dumps(got_res)[:400], json.dumps(want_res)[:400])
             return res
     by_name = {}
     for idx, mol in enumerate(topology.molecules):
@@ -1243,6 +1313,11 @@ MALFORMED = ["missing-file", "missing-file-inactive", "unclosed-conditional", "s
              "buckingham", "cycle", "bad-number"]
 
 
+# the extra stream also knows these (the boundaries of the token counts the reader unpacks)
+EXTRA_MALFORMED = ["define-without-tag", "include-without-path", "molecules-three-tokens", "molecules-one-token",
+                   "atomtype-too-long", "negative-count"]
+
+
 def run(ctx):
     ctx.extra["rule"] = RULE
     ctx.extra["trusted"] = ["vermouth LineParser.parse (the loop: split_comments with COMMENT_CHAR, skip empty lines, "
@@ -1288,7 +1363,7 @@ def run(ctx):
         erng = random.Random("c08-extra|%d|%r" % (i, state))
         opts = dict(rich=erng.random() < 0.75, sysinc=(i % 2 == 0) or erng.random() < 0.2, bigcount=erng.random() < 0.25,
                     deep=erng.choice([0, 0, 0, 6, 9, 12]), decoys=erng.random() < 0.5)
-        malformed = erng.choice(MALFORMED) if erng.random() < 0.08 else None
+        malformed = erng.choice(MALFORMED + EXTRA_MALFORMED * 2) if erng.random() < 0.12 else None
         cases.append(gen_tree(erng, malformed=malformed, opts=opts))
     chunk = 150
     for start in range(0, len(cases), chunk):
